@@ -14,7 +14,11 @@ EXPLANATION = (
     "the input position where it was at entry; (F) a child's error that is not proved soft is never "
     "turned into success or into a soft error; (S') a possibly-soft child error is only replaced by a "
     "fatal one in the combinators documented to do so; (M) set_position is only applied to a "
-    "position read in the same invocation; (B) a successful parse does not rewind (peek excepted).  "
+    "position read in the same invocation; (B) a successful parse does not rewind (peek excepted); "
+    "(R) for the combinators documented to restore the index before each retry (the boxed choice "
+    "OrParser): after a child returned an error no other child is parsed before set_position "
+    "restores a recorded position - the next alternative does not rely on the failed one having "
+    "cleaned up.  "
     "Children are assumed to satisfy the same contract (induction over parser construction); the "
     "error type's own laws (default is soft, to_fatal is fatal, is_soft = !is_fatal) are checked on "
     "every variant of the workspace's ParserErrorTrait implementor.")
@@ -83,7 +87,7 @@ def check_unit(ctx, rule, unit_name, fn, results, eng, table, is_fatal_fn):
     may_upgrade = unit_name in table["may_upgrade_soft_child_error"]
     ext_ok = unit_name in table["external_result_without_rewind"]
     rewind_ok = unit_name in table["rewinds_on_success"]
-    viol = {"S": [], "F": [], "S'": [], "M": [], "B": []}
+    viol = {"S": [], "F": [], "S'": [], "M": [], "B": [], "R": []}
     n_cut = 0
     n_paths = 0
     for v, ts in results:
@@ -103,6 +107,9 @@ def check_unit(ctx, rule, unit_name, fn, results, eng, table, is_fatal_fn):
             e = tf.deref(v[3][0]) if v[3] else tf.TOP
             if e[0] == "external":
                 kind = "external"
+        if ts.get("r_viol") and unit_name in table.get("restores_before_retry", {}):
+            viol["R"].append("parses another child after a child error without restoring the input position first "
+                             "(line %s): the next alternative starts wherever the failed one stopped" % ts["r_viol"][0])
         if ts["m_viol"]:
             viol["M"].append("set_position with a value not read in this invocation (line %s)" % ts["m_viol"][0])
         soft = eng.softness_of(ts, e, is_fatal_fn) if e is not None else None
@@ -148,6 +155,8 @@ def check_unit(ctx, rule, unit_name, fn, results, eng, table, is_fatal_fn):
         if kind == "ok" and ts["rewound"] and ts["pos"] == tsm.ENTRY and not rewind_ok:
             viol["B"].append("returns Ok after rewinding the input")
     for clause, msgs in viol.items():
+        if clause == "R" and unit_name not in table.get("restores_before_retry", {}):
+            continue
         key = "%s:%s:%s" % (rule, unit_name, clause)
         if msgs:
             ctx.violation(rule, key, loc, "%s::parse - %s (%d of %d paths)" % (unit_name, msgs[0], len(msgs), n_paths),
